@@ -4,6 +4,11 @@
 EXTENDS ConsistSplit, Json
 
 Both == {"RESGreedy", "Proportional"}
+LimOn == {TRUE}
+LimOff == {FALSE}
+\* limit checking off: demands at, inside and far above the consist's published limit, braking at and beyond pwr_dyn_brake_max
+NClasses == {"full", "over", "dbl", "half", "rev", "revp", "zero", "rgn", "dyn", "dynp"}
+NWarm == {"full", "over", "dbl", "half", "dyn"}
 R123 == {1, 2, 3}
 AllClasses == {"full", "fullm", "fullp", "half", "rev", "revm", "revp", "low", "zero",
                "rgn", "rgnm", "rgnp", "rhalf", "dyn", "dynm", "dynp", "dmid"}
@@ -23,7 +28,7 @@ BSmin == {5}
 Done == phase = "split" /\ ~CanAdvance
 \* one behaviour in eight or so is also driven through ConsistSimulation::walk by the harness
 WalkToo == hist[Len(hist)] \in {"full", "dyn"}
-Emit == Done => PrintT(<<"REPLAY", ToJson([pdct |-> pol, toy |-> TRUE, units |-> units, steps |-> hist, walk |-> WalkToo])>>)
+Emit == Done => PrintT(<<"REPLAY", ToJson([pdct |-> pol, lim |-> lim, toy |-> TRUE, units |-> units, steps |-> hist, walk |-> WalkToo])>>)
 \* deterministic 1-in-ThinMod thinning of the emission (the model check itself is never thinned; ThinMod = 1 emits all)
 CONSTANT ThinMod
 Thin == (SumSeq([i \in 1..Len(units) |-> i * (units[i].c + 3 * units[i].s + (IF units[i].k = "B" THEN 5 ELSE 0))])
